@@ -14,7 +14,7 @@ CONSTANTS K, PHS, KMAX, SCALARS
 VARIABLES g, tree, cfg, mode
 vars == <<g, tree, cfg, mode>>
 VS == 1..K
-ScQ == {ROne, <<0, 1, 0, 0, -1>>}
+ScQ == {<<0, 1, 0, 0, -1>>}       \* a non-trivial scalar: it must end up on exactly one component
 ScOne == {<<0, 1, 0, 0, -1>>}
 Pairs == {e \in SUBSET VS : Cardinality(e) = 2}
 NoCfg == [k |-> 0, split |-> FALSE, drv |-> "none"]
